@@ -807,6 +807,19 @@ def g_bigint(rng, tier):
     for e in [0, 1, 19, 27, 100, 300, 308, 400, 768, 1000, 1100, 1193, 1194, 1195, 1200]:
         add("bigint_pow10", [1], None, e)
         add("bigint_pow10", [12345678901234567890], None, e)
+    # hi64 building blocks, both limb widths (limbs most significant first, first limb non-zero)
+    v32 = [1, 2, 5, 1 << 15, (1 << 31) - 1, 1 << 31, (1 << 31) + 1, (1 << 32) - 1]
+    v64 = [1, 3, 1 << 31, 1 << 32, (1 << 63) - 1, 1 << 63, (1 << 63) + 1, M64]
+    for a in v32:
+        add("u32_hi64_1", [a])
+        for b in v32 + [0]:
+            add("u32_hi64_2", [a, b])
+            for c in (0, 1, 1 << 31, (1 << 32) - 1, rng.getrandbits(32)):
+                add("u32_hi64_3", [a, b, c])
+    for a in v64:
+        add("u64_hi64_1", [a])
+        for b in v64 + [0, rng.getrandbits(64)]:
+            add("u64_hi64_2", [a, b])
     for k, r in enumerate(out):
         r["id"] = k + 1
     return out
